@@ -180,6 +180,19 @@ func c16DagCases(tier string, rng *rand.Rand, nRandom int) []*c16mCase {
 		if paths > c16MockStepLim/8 && paths < 64*c16MockStepLim {
 			return // too close to the budget to be decided by a wall clock
 		}
+		if strings.HasPrefix(id, "c16dagrand") && side != "request" {
+			// seeded random graphs mix edge kinds and skips freely: keep one only when it is far from the budget under BOTH
+			// readings of its repeated edges (counted as one assignment, or followed like singular ones), so that the verdict
+			// does not hinge on how a borderline walk happens to be timed
+			all := make([]string, len(kinds))
+			for i := range all {
+				all[i] = "one"
+			}
+			upper := c16MockPaths(depth, all, skips)
+			if !(upper <= c16MockStepLim/8 || paths >= 64*c16MockStepLim) {
+				return
+			}
+		}
 		pkg := id + ".v1"
 		msgs := c16Layered(pkg, "L", depth, kinds, skips)
 		small := M("Small", F("id", 1, "string"))
